@@ -78,7 +78,13 @@ WideVal(n) == [nm \in {WideName(i) : i \in 1..24} |-> IF \E i \in 1..n : WideNam
 CallerWideCases ==
     {ADCase(In("wide", FLAG_UP + FLAG_ED, BN(4), GNone, <<WideVal(n)>>), "caller-wide") : n \in {0, 1, 2, 14, 15, 16, 17, 22, 23, 24}}
 
-MC_Cases == FlagCases \cup AcdCases \cup GridCases \cup ExtCases \cup CallerExtCases \cup CallerWideCases
+\* a caller-defined attested-credential-data type (the trait is public): same layout, written by the
+\* caller's own implementation of the one required method
+RawAcdCases ==
+    {ADCase(In("raw", FLAG_UP + FLAG_AT, BN(12), <<Acd(Pattern(102, 16), n, pk)>>, e), "caller-acd") :
+        n \in {0, 16, 255, 300, 544, 545, 546}, pk \in {Pk77, Pattern(101, 200)}, e \in {GNone, <<McExtMin>>}}
+
+MC_Cases == RawAcdCases \cup FlagCases \cup AcdCases \cup GridCases \cup ExtCases \cup CallerExtCases \cup CallerWideCases
 
 (***************************************************************************)
 (* C07 on the model: the independent inverse recovers every input          *)
